@@ -108,6 +108,40 @@ type force struct {
 	lateDial   bool
 }
 
+// blackhole returns the address of a TCP socket that listens with backlog 0 and never accepts
+func blackhole() (string, func()) {
+	fd, err := syscall.Socket(syscall.AF_INET, syscall.SOCK_STREAM, 0)
+	if err != nil {
+		return "", func() {}
+	}
+	if err := syscall.Bind(fd, &syscall.SockaddrInet4{Addr: [4]byte{127, 0, 0, 1}}); err != nil {
+		syscall.Close(fd)
+		return "", func() {}
+	}
+	if err := syscall.Listen(fd, 0); err != nil {
+		syscall.Close(fd)
+		return "", func() {}
+	}
+	sa, err := syscall.Getsockname(fd)
+	if err != nil {
+		syscall.Close(fd)
+		return "", func() {}
+	}
+	// fill the accept queue so that further connects stay in progress
+	var fill []net.Conn
+	for i := 0; i < 2; i++ {
+		if c, err := net.DialTimeout("tcp", fmt.Sprintf("127.0.0.1:%d", sa.(*syscall.SockaddrInet4).Port), 200*time.Millisecond); err == nil {
+			fill = append(fill, c)
+		}
+	}
+	return fmt.Sprintf("127.0.0.1:%d", sa.(*syscall.SockaddrInet4).Port), func() {
+		for _, c := range fill {
+			c.Close()
+		}
+		syscall.Close(fd)
+	}
+}
+
 func freePort() string {
 	ln, err := net.Listen("tcp", "127.0.0.1:0")
 	if err != nil {
@@ -318,6 +352,33 @@ func coreCase(rep *hx.Report, seed int64, fo force) {
 			mu.Unlock()
 		}
 	}
+	closeBlackhole := func() {}
+	// asynchronous dials that are still PENDING when Stop begins: a listening socket with backlog 0 that never accepts takes
+	// one connection and drops the further SYNs, so the connects stay in progress (drawn from r2: corpus seeds unchanged)
+	if r2.Intn(3) == 0 {
+		if bh, closeBH := blackhole(); bh != "" {
+			closeBlackhole = closeBH
+			np := 2 + r2.Intn(6)
+			for k := 0; k < np; k++ {
+				logMu.Lock()
+				var derr error
+				if r2.Intn(2) == 0 {
+					derr = g.DialAsync("tcp", bh, func(c *nbio.Conn, err error) {})
+				} else {
+					derr = g.DialAsyncTimeout("tcp", bh, time.Duration(20+r2.Intn(2000))*time.Millisecond, func(c *nbio.Conn, err error) {})
+				}
+				if derr == nil {
+					evlog = append(evlog, 'o')
+					atomic.AddInt64(&opened, 1)
+				}
+				logMu.Unlock()
+			}
+			h.Steps = append(h.Steps, fmt.Sprintf("dialasync-pending x%d", np))
+			if r2.Intn(2) == 0 {
+				time.Sleep(time.Duration(r2.Intn(60)) * time.Millisecond) // some of the dial timeouts fire before Stop
+			}
+		}
+	}
 	time.Sleep(time.Duration(5+r.Intn(30)) * time.Millisecond)
 	// closes racing with Stop
 	if r.Intn(2) == 0 {
@@ -361,6 +422,7 @@ func coreCase(rep *hx.Report, seed int64, fo force) {
 	logMu.Unlock()
 	ext.Close()
 	closeFillers()
+	closeBlackhole()
 	finish(rep, h, g0, f0, func() {
 		for _, c := range clients {
 			c.Close()
@@ -753,8 +815,25 @@ func main() {
 	n := flag.Int("n", 40, "histories per engine kind")
 	mpath := flag.String("model", "", "")
 	out := flag.String("out", "-", "")
+	oneHTTP := flag.Int64("http", 0, "replay: run only the nbhttp history of this case seed (the `seed` field of a replay file), -reps times")
+	oneCore := flag.Int64("core", 0, "replay: run only the core-engine history of this case seed, -reps times")
+	reps := flag.Int("reps", 1, "")
 	flag.Parse()
 	logging.SetLogger(quiet{})
+	if *oneHTTP != 0 || *oneCore != 0 {
+		rep := hx.NewReport("stop", *seed)
+		coreCase(hx.NewReport("warmup", 0), 12345, force{})
+		httpCase(hx.NewReport("warmup", 0), 12345, force{})
+		for i := 0; i < *reps; i++ {
+			if *oneHTTP != 0 {
+				httpCase(rep, *oneHTTP, force{})
+			} else {
+				coreCase(rep, *oneCore, force{})
+			}
+		}
+		rep.Write(*out)
+		return
+	}
 	if *mpath != "" {
 		model = hx.StartModel(*mpath)
 		defer model.Close()
